@@ -15,19 +15,20 @@ import (
 
 // Engine describes one property check.
 type Engine struct {
-	ID       string
-	Cases    func(tier string) int // number of generated cases for the tier
-	Directed func() []Directed     // committed hand-written cases (run first)
-	Run      func(c *Ctx)          // one generated case; c.R is its PRNG
-	Rule     string
-	Floors   func(tier string) map[string]int64 // class (or "distinct_nontrivial") -> minimum; below => inconclusive
-	Finish   func(res *Result)                   // end of a shard (child side)
-	Post     func(res *Result, work, tier string, seed uint64) // after the merge (parent side)
-	Assume   []string
-	Level    string // evidence level (default exploration)
-	Race     bool   // needs the -race build (vstress)
+	ID         string
+	Cases      func(tier string) int // number of generated cases for the tier
+	Directed   func() []Directed     // committed hand-written cases (run first)
+	Run        func(c *Ctx)          // one generated case; c.R is its PRNG
+	Rule       string
+	Floors     func(tier string) map[string]int64                // class (or "distinct_nontrivial") -> minimum; below => inconclusive
+	Finish     func(res *Result)                                 // end of a shard (child side)
+	Post       func(res *Result, work, tier string, seed uint64) // after the merge (parent side)
+	Assume     []string
+	Level      string // evidence level (default exploration)
+	Race       bool   // needs the -race build (vstress)
 	Exhaustive bool
-	Shards   func(tier string) int
+	Shards     func(tier string) int
+	Anchors    []string // functions of mux the workload must enter ("file.go:Func"), checked by the coverage probe
 }
 
 // Directed is a hand-written case with a stable id (known findings refer to it).
